@@ -561,3 +561,7 @@ def run(repo: Repo, rep: Report, tier: str) -> None:
     # ---------------- R21 --------------------------------------------------------------
     _borrow15(repo, rep, "C03", "C03-R2", "C15-R21", "the literal 1 passed for a Signal parameter that the body uses as `when=` is a constant 1 on a fresh signal, not on the enable signal: it "
               "opens the gates only if the lowering projects it like any other signal", select=lambda o: "exempt from retyping" in o.construct, floor=1)
+
+    # ---------------- R22 --------------------------------------------------------------
+    _borrow15(repo, rep, "C01", "C01-R17", "C15-R22", "`cond : param` in a function body forwards the argument on the argument's own signal, as the substituted body does: the analyzer "
+              "knows a parameter only by a placeholder type, so the gate's output type comes from the lowered value", select=lambda o: "output type #" in o.construct, floor=4)
